@@ -1169,6 +1169,159 @@ def splitStep (L : Layout) (localStep : Nat → σ → LocalStep σ δ) (enter :
       | none => 0), r.2)
 
 
+/-- `splitStep` over an arbitrary neighbour table (originals and copies) -/
+def splitStepN (nb : Nat → Nat → Option Nat) (localStep : Nat → σ → LocalStep σ δ) (enter : Nat → Nat → σ → σ)
+    (val : Nat → δ → M) : ChainState σ → Option (M × ChainState σ) := fun x =>
+  (chainStepN nb localStep enter x).map fun r =>
+    ((match r.1 with
+      | some (s, dep) => val s dep
+      | none => 0), r.2)
+
 end split
+
+
+/-! ## cell level: fold and push -/
+
+theorem updateIntensities_length (L : Layout) (o c : List Nat) : (updateIntensities L o c).length = o.length := by
+  simp [updateIntensities]
+
+theorem updateIntensities_getD (L : Layout) (o c : List Nat) (j : Nat) (hj : j < o.length) (ht : j < L.totNcell) :
+    (updateIntensities L o c).getD j 0 = o.getD j 0 + c.getD j 0 := by
+  unfold updateIntensities
+  rw [List.getD_eq_getElem?_getD, List.getElem?_map, List.getElem?_range hj]
+  simp [ht]
+
+/-- adding several copies one after the other -/
+theorem foldl_updateIntensities_getD (L : Layout) (adds : List (List Nat)) (base : List Nat) (j : Nat)
+    (hj : j < base.length) (ht : j < L.totNcell) :
+    (adds.foldl (updateIntensities L) base).getD j 0 = base.getD j 0 + (adds.map (fun a => a.getD j 0)).sum := by
+  induction adds generalizing base with
+  | nil => simp
+  | cons a as ih =>
+    rw [List.foldl_cons, ih _ (by rw [updateIntensities_length]; exact hj), updateIntensities_getD L base a j hj ht]
+    simp [Nat.add_assoc]
+
+theorem foldl_updateIntensities_length (L : Layout) (adds : List (List Nat)) (base : List Nat) :
+    (adds.foldl (updateIntensities L) base).length = base.length := by
+  induction adds generalizing base with
+  | nil => rfl
+  | cons a as ih => rw [List.foldl_cons, ih, updateIntensities_length]
+
+theorem getD_set_list {β : Type} (l : List β) (i k : Nat) (v d : β) (hi : i < l.length) :
+    (l.set i v).getD k d = if k = i then v else l.getD k d := by
+  by_cases h : k = i
+  · subst h; simp [List.getD_eq_getElem?_getD, hi]
+  · simp [List.getD_eq_getElem?_getD, List.getElem?_set_ne (Ne.symm h), h]
+
+/-- the fold over a list of (original, copy) visits whose originals are below `N` and whose copies are not:
+every subgrid below `N` ends up as itself plus, one after the other, the copies of its visits; the others
+are unchanged -/
+theorem foldl_visits (L : Layout) (N : Nat) (vs : List (Nat × Nat)) :
+    ∀ (cells : List (List Nat)), N ≤ cells.length → (∀ v ∈ vs, v.1 < N ∧ N ≤ v.2) → ∀ i,
+    (vs.foldl (fun cs v => cs.set v.1 (updateIntensities L (cs.getD v.1 []) (cs.getD v.2 []))) cells).getD i []
+      = if i < N then ((vs.filter (fun v => v.1 = i)).map (fun v => cells.getD v.2 [])).foldl (updateIntensities L) (cells.getD i [])
+        else cells.getD i [] := by
+  induction vs with
+  | nil => intro cells _ _ i; simp
+  | cons v vs ih =>
+    intro cells hN hv i
+    have hv0 := hv v (List.mem_cons_self ..)
+    have hvs : ∀ w ∈ vs, w.1 < N ∧ N ≤ w.2 := fun w hw => hv w (List.mem_cons_of_mem _ hw)
+    rw [List.foldl_cons, ih _ (by rw [List.length_set]; exact hN) hvs i]
+    have hset : ∀ k, (cells.set v.1 (updateIntensities L (cells.getD v.1 []) (cells.getD v.2 []))).getD k []
+        = if k = v.1 then updateIntensities L (cells.getD v.1 []) (cells.getD v.2 []) else cells.getD k [] :=
+      fun k => getD_set_list cells v.1 k _ _ (by omega)
+    have hcopy : ∀ w ∈ vs, (cells.set v.1 (updateIntensities L (cells.getD v.1 []) (cells.getD v.2 []))).getD w.2 []
+        = cells.getD w.2 [] := by
+      intro w hw
+      rw [hset]; have := hvs w hw
+      rw [if_neg (by omega)]
+    have hmap : (vs.filter (fun w => w.1 = i)).map (fun w => (cells.set v.1 (updateIntensities L (cells.getD v.1 []) (cells.getD v.2 []))).getD w.2 [])
+        = (vs.filter (fun w => w.1 = i)).map (fun w => cells.getD w.2 []) := by
+      apply List.map_congr_left
+      intro w hw
+      exact hcopy w (List.mem_of_mem_filter hw)
+    rw [hmap, hset]
+    by_cases hi : i < N
+    · rw [if_pos hi, if_pos hi]
+      by_cases hiv : v.1 = i
+      · rw [List.filter_cons_of_pos (by simpa using hiv), List.map_cons, List.foldl_cons, if_pos hiv.symm, hiv]
+      · rw [List.filter_cons_of_neg (by simpa using hiv), if_neg (Ne.symm hiv)]
+    · rw [if_neg hi, if_neg hi, if_neg (by omega)]
+
+theorem updateNeutralFractions_eq (L : Layout) (copy orig : List Nat) (h1 : copy.length = L.totNcell)
+    (h2 : orig.length = L.totNcell) : updateNeutralFractions L copy orig = orig := by
+  apply List.ext_getElem
+  · simp [updateNeutralFractions, h1, h2]
+  · intro i hi1 hi2
+    simp only [updateNeutralFractions, List.getElem_map, List.getElem_range]
+    rw [if_pos (by rw [← h2]; exact hi2)]
+    simp [List.getD_eq_getElem?_getD, hi2]
+
+/-- pushing the state to the copies: every visited copy receives the state of its visit's original (which is
+never modified), every other subgrid is unchanged -/
+theorem foldl_push (L : Layout) (N : Nat) (vs : List (Nat × Nat)) :
+    ∀ (cells : List (List Nat)), (∀ v ∈ vs, v.1 < N ∧ N ≤ v.2 ∧ v.2 < cells.length) → (vs.map Prod.snd).Nodup →
+    (∀ v ∈ vs, (vs.foldl (fun cs v => cs.set v.2 (updateNeutralFractions L (cs.getD v.2 []) (cs.getD v.1 []))) cells).getD v.2 []
+        = updateNeutralFractions L (cells.getD v.2 []) (cells.getD v.1 [])) ∧
+    (∀ i, (∀ v ∈ vs, v.2 ≠ i) →
+      (vs.foldl (fun cs v => cs.set v.2 (updateNeutralFractions L (cs.getD v.2 []) (cs.getD v.1 []))) cells).getD i [] = cells.getD i []) := by
+  induction vs with
+  | nil => intro cells _ _; exact ⟨fun v hv => absurd hv (List.not_mem_nil), fun i _ => rfl⟩
+  | cons v vs ih =>
+    intro cells hv hnd
+    rw [List.map_cons, List.nodup_cons] at hnd
+    have hv0 := hv v (List.mem_cons_self ..)
+    have hset : ∀ k, (cells.set v.2 (updateNeutralFractions L (cells.getD v.2 []) (cells.getD v.1 []))).getD k []
+        = if k = v.2 then updateNeutralFractions L (cells.getD v.2 []) (cells.getD v.1 []) else cells.getD k [] :=
+      fun k => getD_set_list cells v.2 k _ _ hv0.2.2
+    have hvs : ∀ w ∈ vs, w.1 < N ∧ N ≤ w.2 ∧ w.2 < (cells.set v.2 (updateNeutralFractions L (cells.getD v.2 []) (cells.getD v.1 []))).length :=
+      fun w hw => by rw [List.length_set]; exact hv w (List.mem_cons_of_mem _ hw)
+    obtain ⟨ih1, ih2⟩ := ih _ hvs hnd.2
+    have hne : ∀ w ∈ vs, w.2 ≠ v.2 := fun w hw h => hnd.1 (h ▸ List.mem_map_of_mem hw)
+    constructor
+    · intro w hw
+      rw [List.foldl_cons]
+      rcases List.mem_cons.mp hw with rfl | hw'
+      · rw [ih2 _ (fun u hu => hne u hu), hset, if_pos rfl]
+      · have hw1 := hv w hw
+        rw [ih1 w hw', hset, hset, if_neg (hne w hw'), if_neg (by omega)]
+    · intro i hi
+      rw [List.foldl_cons, ih2 i (fun u hu => hi u (List.mem_cons_of_mem _ hu)), hset,
+        if_neg (fun h => hi v (List.mem_cons_self ..) h.symm)]
+
+/-! ## the `_copies` table over a history of `create_copies` / `update_copies` -/
+
+theorem buildCopies_inv (N : Nat) (ls : List Nat) : ∀ (size : Nat) (prev : List Nat), N ≤ size →
+    (∀ p ∈ prev, p = noCopy ∨ N ≤ p) → ∀ p ∈ buildCopies size prev ls, p = noCopy ∨ N ≤ p := by
+  induction ls with
+  | nil => intro size prev _ _ p hp; simp [buildCopies] at hp
+  | cons l ls ih =>
+    intro size prev hs hprev p hp
+    simp only [buildCopies, List.mem_cons] at hp
+    rcases hp with rfl | hp
+    · split_ifs
+      · right; exact hs
+      · cases prev with
+        | nil => left; rfl
+        | cons q qs => simpa using hprev q (List.mem_cons_self ..)
+    · exact ih _ _ (by omega) (fun q hq => hprev q (List.mem_of_mem_tail hq)) p hp
+
+/-- `_copies` after the constructor and any sequence of level assignments (`create_copies`, then `update_copies`) -/
+def copiesAfter (L : Layout) (hist : List (List Nat)) : List Nat :=
+  hist.foldl (fun prev lv => buildCopies L.size prev lv) (List.replicate L.size noCopy)
+
+theorem copiesAfter_inv (L : Layout) (hist : List (List Nat)) :
+    ∀ p ∈ copiesAfter L hist, p = noCopy ∨ L.size ≤ p := by
+  unfold copiesAfter
+  suffices h : ∀ (init : List Nat), (∀ p ∈ init, p = noCopy ∨ L.size ≤ p) →
+      ∀ p ∈ hist.foldl (fun prev lv => buildCopies L.size prev lv) init, p = noCopy ∨ L.size ≤ p from
+    h _ (fun p hp => Or.inl (List.eq_of_mem_replicate hp))
+  induction hist with
+  | nil => intro init h; exact h
+  | cons lv hist ih =>
+    intro init h
+    rw [List.foldl_cons]
+    exact ih _ (buildCopies_inv L.size lv L.size init (le_refl _) h)
 
 end CMacVerif.SubgridLayout
